@@ -18,6 +18,7 @@ pub mod c15;
 pub mod c16;
 pub mod c17;
 pub mod c18;
+pub mod c19;
 pub mod c20;
 
 pub struct PropMeta {
@@ -46,6 +47,7 @@ pub fn all() -> Vec<PropMeta> {
         PropMeta { id: "C16", rule: c16::RULE, assumptions: c16::ASSUMPTIONS, subs: c16::subs },
         PropMeta { id: "C17", rule: c17::RULE, assumptions: c17::ASSUMPTIONS, subs: c17::subs },
         PropMeta { id: "C18", rule: c18::RULE, assumptions: c18::ASSUMPTIONS, subs: c18::subs },
+        PropMeta { id: "C19", rule: c19::RULE, assumptions: c19::ASSUMPTIONS, subs: c19::subs },
         PropMeta { id: "C20", rule: c20::RULE, assumptions: c20::ASSUMPTIONS, subs: c20::subs },
     ]
 }
